@@ -179,6 +179,23 @@ class Ctx:
         self.log(f"gen {module}/{cfg}: {len(states)} cases ({r['wall']:.1f}s)")
         return states
 
+    def gen_json(self, module: str, cfg: str, **kw) -> list:
+        """Enumerate abstract cases that the spec prints itself as JSON
+        (an always-true 'invariant' Emit == ... => PrintT(ToJson(case)))."""
+        r = self.tlc(module, cfg, **kw)
+        cases = []
+        for ln in r["out"].splitlines():
+            if ln.startswith('"{') or ln.startswith('"['):
+                cases.append(json.loads(parse_value(ln)))
+        self.mc_states += r.get("distinct", 0)
+        self.mc_transitions += r.get("generated", 0)
+        self.mc_runs.append({"module": module, "cfg": cfg, "distinct": r.get("distinct"),
+                             "generated": r.get("generated"), "role": "gen", "wall_s": round(r["wall"], 2)})
+        if r["violated"]:
+            raise MachineryError(f"generator {module}/{cfg} violated {r['violated']}")
+        self.log(f"gen {module}/{cfg}: {len(cases)} cases ({r['wall']:.1f}s)")
+        return cases
+
     # ---------------------------------------------------------------- trace validation
     def validate(self, module: str, cfg: str, events: list, *, shards: int | None = None,
                  group_key: str | None = None, env: dict | None = None, timeout: int = 3600) -> list:
